@@ -74,7 +74,7 @@ def run_obligations(items: List, worker: Callable, nproc: Optional[int] = None, 
         return out
     _JOB = (items, worker)
     ctx = mp.get_context("fork")
-    with ctx.Pool(min(nproc, len(items)), maxtasksperchild=50) as pool:
+    with ctx.Pool(min(nproc, len(items)), maxtasksperchild=1) as pool:   # one fresh process per obligation: no state can leak between obligations
         for rs in pool.imap_unordered(_run_index, range(len(items)), chunksize):
             out.extend(rs)
     _JOB = None
